@@ -24,6 +24,7 @@ Pool == <<
   <<34,34>>, <<34,97,34>>, <<34,49,34>>, <<34,98,34>>, <<34,97,98,34>>, <<34,92,117,48,48,54,49,34>>,   \* "" "a" "1" "b" "ab" "a"
   <<91,93>>, <<91,49,93>>, <<91,49,46,48,93>>, <<91,49,44,50,93>>, <<91,50,44,49,93>>, <<91,91,93,93>>, <<91,110,117,108,108,93>>,
   <<91,34,97,34,93>>, <<91,91,49,93,93>>,
+  <<49,101,49,57>>, <<49,69,49,57>>, <<49,48,101,49,56>>, <<49,101,50,48>>, <<49,46,49,101,49,57>>, <<45,49,101,49,57>>, <<57,101,49,56>>, <<49,101,49,48>>, <<49,48,48,48,48,48,48,48,48,48,48>>, <<50,48,48,48,48,48,48,48,48,48,48>>, <<50,101,49,48>>, <<49,101,50,50>>, <<49,50,51,101,49,55>>, <<49,48,48,48,48,48,48,48,48,48,48,48,48,48,48,48,48,48,48>>, <<49,101,49,56>>, <<91,49,101,49,57,93>>, <<91,49,101,50,48,93>>, <<123,34,97,34,58,49,101,49,57,125>>,   \* large magnitudes: 1e19 1E19 10e18 1e20 1.1e19 -1e19 9e18 1e10 10000000000 20000000000 2e10 1e22 ...
   <<123,125>>, <<123,34,97,34,58,49,125>>, <<123,34,97,34,58,49,46,48,125>>, <<123,34,97,34,58,50,125>>, <<123,34,98,34,58,49,125>>,
   <<123,34,97,34,58,49,44,34,98,34,58,50,125>>, <<123,34,98,34,58,50,44,34,97,34,58,49,125>>, <<123,34,97,34,58,110,117,108,108,125>>,
   <<123,34,97,34,58,91,49,93,125>>, <<123,34,97,34,58,123,125,125>> >>
@@ -34,9 +35,25 @@ Tick(j) == <<cBTICK>> \o j \o <<cBTICK>>
 
 DocText(l, r) == <<123, 34, 97, 34, 58>> \o l \o <<44, 34, 98, 34, 58>> \o r \o <<125>>
 
+(* neighbouring doubles (JValue.tla), alone and inside containers, as tagged documents (their 17-digit spellings are not
+   inside the JSON text model): '==' is left open on a pair that differs only there, the ordering is that of the reals *)
+NearVals == <<JInt(1), JNear(1, 1, 1), JNear(1, 1, 2), JNear(1, 1, -1), JNum(3, 10), JNear(3, 10, 1), JNear(3, 10, -2), JNear(-3, 10, 1),
+              JNear(-1, 1, 1), JNum(3, 2), JNear(3, 2, 1),
+              JArr(<<JInt(1)>>), JArr(<<JNear(1, 1, 1)>>), JArr(<<JNear(1, 1, 1), JInt(2)>>), JArr(<<JInt(1), JInt(2)>>),
+              MkObj(<<JMem(<<97>>, JNear(3, 10, 1))>>), MkObj(<<JMem(<<97>>, JNum(3, 10))>>), JStr(<<49>>), JNull>>
+(* both operands are the same node of the document: `a OP a`, `@ OP @` below a field *)
+SameText == <<cLBRACKET>> \o JoinWith([i \in 1..6 |-> <<97, cSPACE>> \o Ops[i] \o <<cSPACE, 97>>], <<cCOMMA, cSPACE>>) \o <<cRBRACKET>>
+AtText == <<97, cDOT, cLBRACKET>> \o JoinWith([i \in 1..6 |-> <<cAT, cSPACE>> \o Ops[i] \o <<cSPACE, cAT>>], <<cCOMMA, cSPACE>>) \o <<cRBRACKET>>
+
 Cases(zzdummy) ==
   LET pairs == SetToSeq({<<i, j>> : i \in DOMAIN Pool, j \in DOMAIN Pool})
-  IN [x \in DOMAIN pairs |-> [e |-> "cmp", text |-> SixOf(<<97>>, <<98>>), doctext |-> DocText(Pool[pairs[x][1]], Pool[pairs[x][2]])]]
+      near == SetToSeq({<<i, j>> : i \in DOMAIN NearVals, j \in DOMAIN NearVals})
+  IN [x \in DOMAIN near |-> [e |-> "cmp", text |-> SixOf(<<97>>, <<98>>),
+                              doc |-> MkObj(<<JMem(<<97>>, NearVals[near[x][1]]), JMem(<<98>>, NearVals[near[x][2]])>>)]]
+     \o [x \in DOMAIN Pool |-> [e |-> "cmp", text |-> SameText, doctext |-> DocText(Pool[x], Pool[x])]]
+     \o [x \in 1..(Len(Pool) - 1) |-> [e |-> "cmp", text |-> AtText, doctext |-> DocText(Pool[x + 1], Pool[x + 1])]]   \* not null: a multi-select on null is null
+     \o [x \in DOMAIN NearVals |-> [e |-> "cmp", text |-> SameText, doc |-> MkObj(<<JMem(<<97>>, NearVals[x])>>)]]
+     \o [x \in DOMAIN pairs |-> [e |-> "cmp", text |-> SixOf(<<97>>, <<98>>), doctext |-> DocText(Pool[pairs[x][1]], Pool[pairs[x][2]])]]
      \o [x \in DOMAIN pairs |-> [e |-> "cmp", text |-> SixOf(Tick(Pool[pairs[x][1]]), Tick(Pool[pairs[x][2]])), doctext |-> <<48>>]]   \* any non-null document
 
 ASSUME ndJsonSerialize(IOEnv.OUT, Cases(0))
